@@ -353,7 +353,7 @@ pub fn c05_cases(thorough: bool) -> Vec<C05Case> {
         mk("different_commitment", base.clone(), Dev::ReplaceV(1), true),
         mk("different_first_commitment_two_phase", two_phase.clone(), Dev::ReplaceV(0), true),
         mk("reordered_commitments", base.clone(), Dev::SwapV(0, 1), true),
-        mk("reordered_with_identity_commitment_equal_weights", Shape::new("sum", &[Commit, Commit, CommitZero, AllocMul, Con, ConSum], &[]), Dev::SwapV(1, 2), true),
+        mk("reordered_with_identity_commitment_equal_weights", Shape::new("sum", &[Commit, Commit, CommitZero, AllocMul, ConSum], &[]), Dev::SwapV(1, 2), true),
         mk("extra_commitment", Shape::new("extra", &[Commit, AllocMul, Con, CommitExtraV], &[]), Dev::InShape, true),
         mk("missing_commitment", Shape::new("missing", &[Commit, AllocMul, Con, CommitSkipV], &[]), Dev::InShape, true),
         mk("different_label", { let mut s = base.clone(); s.verifier_label = Some("other".into()); s }, Dev::InShape, true),
